@@ -155,7 +155,7 @@ def run(chk, replay=None):
         cdir = os.path.join(C.ROOT, "corpus", "C03")
         for f in sorted(os.listdir(cdir)) if os.path.isdir(cdir) else []:
             scs.append(json.load(open(os.path.join(cdir, f)))["input"])
-        for i in range(60 if chk.tier == "quick" else 800):
+        for i in range(160 if chk.tier == "quick" else 1500):
             scs.append(gen_scenario(chk.rng, i))
     with ThreadPoolExecutor(12) as ex:
         results = list(ex.map(lambda s: run_scenario(xvc, s), scs))
@@ -184,7 +184,7 @@ def run(chk, replay=None):
     if not replay:
         model = C.ensure_model("Repo", ["Base", "Repo"])
         kscs = []
-        for sc in scs[: (24 if chk.tier == "quick" else 200)]:
+        for sc in scs[: (40 if chk.tier == "quick" else 300)]:
             items = [("W", p, bytes.fromhex(h)) for p, h in sc["files"].items()]
             for it in sc["items"]:
                 if it[0] == "W":
